@@ -23,6 +23,7 @@ func init() {
 			"R2": "see C01-R4",
 			"R3": "see C16-R1 (TTL < 3*H is rejected)",
 			"R5": "the refresh ticker's period is cfg.HeartbeatInterval (C03-R8, shared): together with R3 the record is refreshed three times per TTL",
+			"R9": "every may-demote call in a term loop (refresh, validation: the ticker loops the claim-set unit starts) and the functions it is split into calls a term-bound function with the loop's own context: a function whose claim clear is decided by the comparison of that parameter with the field holding the current term's context, or that passes it on to one",
 			"R8": "see C02-R5: the revision (and token, leader id) stores dominate the claim Store(true); the watcher demotes on a foreign event only if its revision exceeds the term's, read without the mutex under a lock-free claim test",
 			"R7": "in every loop that calls the validation function periodically, the context passed to it comes from context.WithTimeout(_, d) with d == max(K, H/2) for a constant K (if-chain or builtin max): a read answered within H/2 never counts as a validation failure",
 			"R6": "shared with C03-R9: the refresh loop of a term runs under that term's context (no refresher of an earlier term survives into a later term and collides with it)",
@@ -230,6 +231,7 @@ func checkC07(c *Ctx) {
 	// R8: shared with C02-R5: the watcher's stale-event filter compares an event's revision with the
 	// term's own under a claim it reads lock-free: the revision must be published before the claim
 	claimPublishedLastRule(c, "R8")
+	termBoundDemotionRule(c, "R9")
 	// R7: the background validation gives the store as long as the heartbeat does
 	validationTimeoutRule(c, "R7")
 	// R2 shared with C01-R4
